@@ -211,7 +211,7 @@ def check_scan(st, res, rule):
                     okl = True
                 if re.match(r"^IntoIterator@\w+::into_iter\((Deref@Oset::deref\()?param1\.machine\.states\)?\[param\d+\.0\]\.items\)$", it):
                     okl = True
-                if re.match(r"^(Iterator@\w+::enumerate\()?(IntoIterator@\w+::into_iter|slice::iter)\((Deref@Oset::deref\()?param1\.machine\.states\)*$", it):
+                if re.match(r"^IntoIterator@\w+::into_iter\(Iterator::enumerate\(slice::iter\((Deref@Oset::deref\()?param1\.machine\.states\)?\)\)\)$", it):
                     okl = True
             # early exits other than `?`/exhaustion
             res.inst(rule, "loop|%s" % fn.path, fn.where, True, "iterates %s" % desc)
